@@ -18,8 +18,9 @@ C12, round 3c - what the statement leaves free is no longer pinned by the model.
     per iteration (`offers`, observed on the scripted socket; when the list runs out the whole buffer is
     offered - the verified code, `sendLoopA [] = sendLoop` by definition).  The model stays predictive
     (result, send buffer, wire, faults used), and every send-side law is proved for ALL offer lists.
-(3) `read_ns` ends with `recv(1)`, whose value is pinned (the next byte) but whose split is free: after a
-    `read_ns` the model may be re-seated on the observed split of the same view (`reseat`).
+(3) The VALUE of a framing call (recv_until / recv_size / peek / recv_close, and read_ns with its final recv(1)) is
+    pinned by the statement; the split it leaves between `rbuf` and the socket is not.  After such a call the model
+    may be re-seated on the observed split of the same bytes owed (`reseat`).
 Core Lean only.
 -/
 namespace C12
@@ -52,13 +53,17 @@ structure RecvObs where
   faults : Nat            -- faults the network still holds
 deriving Repr, DecidableEq
 
-/-- the observed state: the observed buffer over the point of the script the observation names -/
-def RecvObs.state (o : RecvObs) (st : St) : Option St :=
-  if o.und ≤ (pending st.script).length ∧ o.faults ≤ nTO st.script then
-    match advance st.script ((pending st.script).length - o.und) (nTO st.script - o.faults) with
+/-- the state an observation names, as a point of a script `s0` it lies on (the observed buffer over the rest
+    of `s0` that still holds `o.und` bytes and `o.faults` faults) -/
+def RecvObs.seat (o : RecvObs) (s0 : List Ev) : Option St :=
+  if o.und ≤ (pending s0).length ∧ o.faults ≤ nTO s0 then
+    match advance s0 ((pending s0).length - o.und) (nTO s0 - o.faults) with
     | some s => some ⟨o.rbuf, s⟩
     | none => none
   else none
+
+/-- the observed state after a call made in state `st`: a point further along `st.script` -/
+def RecvObs.state (o : RecvObs) (st : St) : Option St := o.seat st.script
 
 /-- the statement's demand on `recv(size)`, decided against the current state: a fault must have used up a
     fault of the network and moved no byte out of `rbuf ++ undelivered`; a value must be a prefix of
@@ -92,32 +97,49 @@ def obsOfRecv (p : Res × St) : RecvObs :=
 /-! ## runs in which recv steps are observations and the framing calls are the model's -/
 
 inductive MStep where
-  | call (op : Op)                        -- a framing call, retried after Timeout: computed by the model
-  | recvObs (size : Nat) (o : RecvObs)    -- one recv attempt as observed on the implementation
+  | call (op : Op) (seat : Option RecvObs)  -- a framing call, retried after Timeout: computed by the model; then
+                                            -- (optionally) re-seated on the split observed after it
+  | recvObs (size : Nat) (o : RecvObs)      -- one recv attempt as observed on the implementation
 deriving Repr, DecidableEq
 
 def MStep.det : MStep → Bool
-  | .call op => op.deterministic
+  | .call op _ => op.deterministic
   | .recvObs _ _ => true
+
+/-! The value of a framing call is pinned by the statement, the split it leaves between `rbuf` and the socket is
+    not (does recv_size over-read into the buffer, or ask the socket for exactly what is missing?).  After a
+    model-computed call the model may therefore be re-seated on the OBSERVED split - but only when that is a split
+    of the same bytes owed with the same faults ahead; otherwise it keeps its own state, and the difference shows
+    in what is compared.  `s0` is the script the network started with (an implementation that reads less than the
+    model leaves MORE in the socket, so the observed point may lie before the model's own). -/
+
+def reseat (s0 : List Ev) (o : RecvObs) (st : St) : St :=
+  match o.seat s0 with
+  | some st' => if st'.view = st.view ∧ nTO st'.script = nTO st.script then st' else st
+  | none => st
+
+def reseatOpt (s0 : List Ev) : Option RecvObs → St → St
+  | none, st => st
+  | some o, st => reseat s0 o st
 
 /-- what the whole-stream meaning of a step depends on: the call, or what the observed recv returned (not the
     observed buffer, undelivered count or fault count) -/
 def MStep.answer : MStep → MStep
-  | .call op => .call op
+  | .call op _ => .call op none
   | .recvObs _ o => .recvObs 0 ⟨o.res, [], 0, 0⟩
 
 /-- `none` = some recv observation was not accepted -/
-def runMixed (cfg : Cfg) : List MStep → St → Option (List Res × St)
+def runMixed (cfg : Cfg) (s0 : List Ev) : List MStep → St → Option (List Res × St)
   | [], st => some ([], st)
-  | .call op :: r, st =>
-    match runMixed cfg r (callRetry cfg op st).2 with
+  | .call op seat :: r, st =>
+    match runMixed cfg s0 r (reseatOpt s0 seat (callRetry cfg op st).2) with
     | some (rs, s) => some ((callRetry cfg op st).1 :: rs, s)
     | none => none
   | .recvObs size o :: r, st =>
     match acceptRecv size o st with
     | none => none
     | some st' =>
-      match runMixed cfg r st' with
+      match runMixed cfg s0 r st' with
       | some (rs, s) => some (o.toRes :: rs, s)
       | none => none
 
@@ -125,28 +147,28 @@ def runMixed (cfg : Cfg) : List MStep → St → Option (List Res × St)
     the bytes it handed over off the front -/
 def specMixed : List MStep → Bytes → List Res × Bytes
   | [], S => ([], S)
-  | .call op :: r, S => ((spec op S).1 :: (specMixed r (spec op S).2).1, (specMixed r (spec op S).2).2)
+  | .call op _ :: r, S => ((spec op S).1 :: (specMixed r (spec op S).2).1, (specMixed r (spec op S).2).2)
   | .recvObs _ o :: r, S =>
     (o.toRes :: (specMixed r (S.drop o.handed.length)).1, (specMixed r (S.drop o.handed.length)).2)
 
 /-- everything handed over by the observed recv steps and consumed by the framing calls of a run -/
 def handedMixed : List MStep → List Res → Bytes
-  | .call op :: r, x :: xs => consumed op x ++ handedMixed r xs
+  | .call op _ :: r, x :: xs => consumed op x ++ handedMixed r xs
   | .recvObs _ o :: r, _ :: xs => o.handed ++ handedMixed r xs
   | _, _ => []
 
 /-- public calls with `maxsize` still unresolved, recv calls carrying their observed attempts -/
 inductive MCall where
-  | call (c : Call)                                  -- anything but recv
+  | call (c : Call) (seat : Option RecvObs)          -- anything but recv; the split observed after its last attempt
   | recvObs (size : Nat) (obs : List RecvObs)        -- recv(size): every attempt that was made
 deriving Repr, DecidableEq
 
 /-- resolve `maxsize` (as `resolveCalls` does) -/
 def resolveMixed (large : Nat) : Nat → List MCall → List MStep
   | _, [] => []
-  | selfMax, .call c :: cs =>
+  | selfMax, .call c seat :: cs =>
     match c.op large selfMax with
-    | some op => .call op :: resolveMixed large selfMax cs
+    | some op => .call op seat :: resolveMixed large selfMax cs
     | none => resolveMixed large (c.nextMax selfMax) cs
   | selfMax, .recvObs size obs :: cs => obs.map (MStep.recvObs size) ++ resolveMixed large selfMax cs
 
@@ -166,14 +188,8 @@ def daccRecv (size : Nat) (o : RecvObs) (cls : Fault) (b : BSock) : Option (DOut
         some (.fault cls, { b with rx := st', rtags := b.rtags.drop (nTO b.rx.script - nTO st'.script) })
       else none
 
-/-! ## read_ns: the split after the final recv(1) is free -/
-
-/-- continue from the observed split when it is a split of the same view with the same faults ahead;
-    otherwise keep the model's own state (the difference then shows in what is compared) -/
-def reseat (o : RecvObs) (st : St) : St :=
-  match o.state st with
-  | some st' => if st'.view = st.view ∧ nTO st'.script = nTO st.script then st' else st
-  | none => st
+/-- re-seating on the one object -/
+def dseat (s0 : List Ev) (o : Option RecvObs) (b : BSock) : BSock := { b with rx := reseatOpt s0 o b.rx }
 
 /-! ## send: how much one iteration offers to the socket is a parameter -/
 
